@@ -27,8 +27,18 @@ SCOPES = {
 }
 
 
+_FLAG = [0]
+
+
 def _call(assigns, lag, n, sliding):
     from enspara.msm.transition_matrices import assigns_to_counts
+    # the switch and the numbers in every form a caller may hold them in (python / numpy scalars)
+    _FLAG[0] += 1
+    k = _FLAG[0]
+    sliding = (bool(sliding), np.bool_(sliding), int(sliding), np.array([sliding])[0])[k % 4]
+    lag = (lag, np.int64(lag), np.int32(lag))[k % 3]
+    if n is not None:
+        n = (n, np.int64(n))[k % 2]
     C = assigns_to_counts(assigns, lag, max_n_states=n, sliding_window=sliding)
     return np.asarray(C.toarray())
 
@@ -95,6 +105,38 @@ def replay_case(c):
     return bad
 
 
+# ---- large inputs (specs/msm/CountsPeriodic.tla): periodic trajectories have closed-form counts --------------------
+PATS = "{<<0, 1>>, <<0, 1, 2>>, <<0, 0, 1>>, <<2, 0, 1, 1>>, <<1>>, <<0, 2, 2, 1, 0>>}"
+BIG = {"quick": ["<< <<<<0, 1, 2>>, 700000>>, <<<<0, 0, 1>>, 500000>>, <<<<2, 0, 1, 1>>, 100>> >>",
+                 "<< <<<<2, 0, 1, 1>>, 100>>, <<<<0, 1>>, 1048577>>, <<<<0, 2, 2, 1, 0>>, 3>>, <<<<1>>, 70001>> >>",
+                 "<< <<<<0, 1>>, 65537>>, <<<<0, 1, 2>>, 65536>>, <<<<0, 0, 1>>, 65535>> >>"],
+       "thorough": ["<< <<<<0, 1, 2>>, 700000>>, <<<<0, 0, 1>>, 500000>>, <<<<2, 0, 1, 1>>, 100>> >>",
+                    "<< <<<<2, 0, 1, 1>>, 100>>, <<<<0, 1>>, 1048577>>, <<<<0, 2, 2, 1, 0>>, 3>>, <<<<1>>, 70001>> >>",
+                    "<< <<<<0, 1>>, 65537>>, <<<<0, 1, 2>>, 65536>>, <<<<0, 0, 1>>, 65535>> >>",
+                    "<< <<<<0, 1, 2>>, 2100000>>, <<<<0, 2, 2, 1, 0>>, 2200000>>, <<<<0, 1>>, 17>> >>"]}
+
+
+def big_case(c):
+    """one emitted large data set: build the frames, call the real function in ragged and padded form (and in both
+    trajectory orders), compare with the closed-form matrix TLC printed"""
+    from enspara import ra
+    from enspara.msm.transition_matrices import assigns_to_counts
+    rows = [np.tile(np.array(p, dtype=np.int64), L // len(p) + 1)[:L] for p, L in c["trajs"]]
+    exp = np.array(c["C"], dtype=np.int64)
+    bad = []
+    for form, mk in (("ragged", lambda: ra.RaggedArray(rows)),
+                     ("ragged-reversed", lambda: ra.RaggedArray(rows[::-1])),
+                     ("ragged-int32", lambda: ra.RaggedArray([r.astype(np.int32) for r in rows]))):
+        try:
+            got = np.asarray(assigns_to_counts(mk(), c["lag"], max_n_states=c["S"], sliding_window=c["sliding"]).toarray())
+        except Exception as ex:
+            bad.append((form, "raised %s: %s" % (type(ex).__name__, ex)))
+            continue
+        if got.shape != exp.shape or not np.array_equal(got, exp):
+            bad.append((form, {"got": got.tolist(), "expected": exp.tolist()}))
+    return bad
+
+
 def consts(sc, emit):
     d = {k: str(v) for k, v in sc.items()}
     d["Emit"] = "TRUE" if emit else "FALSE"
@@ -121,7 +163,32 @@ def run(ctx):
         cfg = core.write_cfg(os.path.join(d, "emit%d.cfg" % i), constants=consts(sc, True),
                              invariants=["EmitInv"])
         jobs.append(dict(module="Counts", cfg=os.path.basename(cfg), cwd=d, label="emit %s" % sc, workers=1))
+    # large inputs: closed form checked against the definition for every small length, then emitted for big ones
+    # (cfg files cannot hold tuples: the constants live in a generated wrapper module)
+    with open(os.path.join(d, "MC_CountsPeriodic.tla"), "w") as fh:
+        fh.write("---- MODULE MC_CountsPeriodic ----\nEXTENDS CountsPeriodic\nPatsDef == %s\nBigDef == {%s}\n"
+                 "SmallDef == 0..24\nLagsDef == {1, 2, 3, 7}\n====\n" % (PATS, ", ".join(BIG[ctx.tier])))
+    pc = dict(Pats="<- PatsDef", S="3", SmallLens="<- SmallDef", BigSets="<- BigDef", Lags="<- LagsDef")
+    cfg = core.write_cfg(os.path.join(d, "per_small.cfg"), init="InitSmall", constants=dict(pc, Emit="FALSE"),
+                         invariants=["ClosedIsDef", "TotalLaw"])
+    jobs.append(dict(module="MC_CountsPeriodic", cfg=os.path.basename(cfg), cwd=d, workers=2,
+                     label="CountsPeriodic closed form = definition, lengths 0..24"))
+    cfg = core.write_cfg(os.path.join(d, "per_big.cfg"), init="InitBig", constants=dict(pc, Emit="TRUE"),
+                         invariants=["EmitInv", "TotalLaw"])
+    jobs.append(dict(module="MC_CountsPeriodic", cfg=os.path.basename(cfg), cwd=d, workers=1,
+                     label="CountsPeriodic emit large data sets"))
     results = ctx.tlc_parallel(jobs)
+    bigcases = [p for t, p in results[-1].prints if t == "CASE"]
+    if not bigcases:
+        raise core.MachineryError("no large data set emitted by CountsPeriodic")
+    for c, bad in zip(bigcases, core.pmap(big_case, bigcases, chunk=2)):
+        ctx.case(("big", str(c["trajs"]), c["lag"], c["sliding"]), sample=None)
+        ctx.traces += 1
+        for form, detail in bad:
+            ctx.violation({"kind": "replay", "form": form, "trajs(pattern,length)": c["trajs"], "lag": c["lag"],
+                           "sliding": c["sliding"], "detail": detail,
+                           "how": "assigns_to_counts on periodic trajectories vs CountsPeriodic!Closed"},
+                          key="assigns_to_counts/large/%s" % form)
     for i, sc in enumerate(SCOPES[ctx.tier]):
         r = results[2 * i + 1]
         cases = [p for t, p in r.prints if t == "CASE"]
